@@ -9,6 +9,9 @@ for name in names:
     if only and not any((name.startswith(o[1:]) if o.startswith("^") else o in name) for o in only):
         continue
     meta = json.load(open(os.path.join(ROOT, "seeded", name, "meta.json")))
+    if meta.get("status", "").startswith("obsolete"):
+        rows.append((name, meta["breaks_property"], "n/a (no longer breaks the property: " + meta["status"] + ")", "", 0))
+        continue
     prop = meta.get("check_with", meta["breaks_property"])
     t0 = time.time()
     r = subprocess.run([os.path.join(ROOT, "evalmut.py"), os.path.join(ROOT, "seeded", name, "patch.diff"), prop, "--skip-suite"],
@@ -34,4 +37,5 @@ with open(out, "w") as f:
     f.write("| seeded change | property | quick check | first violation class | seconds |\n|---|---|---|---|---|\n")
     for name, prop, verdict, cls, dt in rows:
         f.write("| %s | %s | %s | %s | %.0f |\n" % (name, prop, verdict, cls, dt))
-print("caught %d of %d" % (sum(1 for r in rows if r[2].startswith("CAUGHT")), len(rows)))
+live = [r for r in rows if not r[2].startswith("n/a")]
+print("caught %d of %d" % (sum(1 for r in live if r[2].startswith("CAUGHT")), len(live)))
